@@ -206,7 +206,7 @@ Proof.
   destruct (tag =? TAGR_PTR).
   { eapply good_weaken with (k := C1 * N.of_nat 8 + 0); [|lia|apply N.le_refl|idq].
     eapply good_bind; [apply good_le|]. intros p _.
-    destruct (PAYLOAD_MASK <? p); [destruct dbg; [apply good_crash | apply good_ret; exact I] | apply good_ret; exact I]. }
+    destruct (LIM_PTR <? p); [apply good_fail; discriminate | apply good_ret; exact I]. }
   apply good_fail. discriminate.
 Qed.
 
